@@ -9,28 +9,62 @@ static void check_args_defined(const std::vector<Val> &a, const std::string &n) 
   if (!opt_uninit) return;
   for (auto &v : a) if (v.undef) throw Fault{"UNINIT-USE", "argument of " + n};
 }
-static void writestr(State &S, u64 dst, const std::string &s) {
-  for (size_t i = 0; i <= s.size(); i++) storev(S, dst + i, mk(i < s.size() ? (uint8_t)s[i] : 0, 8), 1);
+typedef std::vector<Val> SBytes;
+static void writestr(State &S, u64 dst, const SBytes &s) {
+  for (size_t i = 0; i < s.size(); i++) storev(S, dst + i, s[i], 1);
+  storev(S, dst + s.size(), mk(0, 8), 1);
+}
+static void putstr(SBytes &o, const std::string &s) { for (unsigned char c : s) o.push_back(mk(c, 8)); }
+// decimal digits of a symbolic integer: fork on sign and number of digits (at most 20 classes), digits stay symbolic
+static void put_symbolic_decimal(State &S, SBytes &out, const Val &v0, bool is_long, bool is_unsigned) {
+  unsigned w = is_long ? 64 : 32;
+  Val v = v0.w > w ? truncv(v0, w) : (v0.w < w ? sextv(v0, w) : v0);
+  bool neg = false;
+  if (!is_unsigned) neg = branch(S, icmp(CmpInst::ICMP_SLT, v, mk(0, w)));
+  Val mag = neg ? binop(S, Instruction::Sub, mk(0, w), v, w, nullptr) : v;   // INT_MIN maps to itself, read as unsigned below: correct magnitude
+  unsigned nd = 1; u64 p = 10;
+  while (nd < (w == 32 ? 10u : 20u)) {
+    if (!branch(S, icmp(CmpInst::ICMP_UGE, mag, mk(p, w)))) break;
+    nd++; if (p > ~0ULL / 10) break; p *= 10;
+  }
+  if (neg) out.push_back(mk('-', 8));
+  u64 div = 1; for (unsigned i = 1; i < nd; i++) div *= 10;
+  for (unsigned i = 0; i < nd; i++, div /= 10) {
+    Val q = binop(S, Instruction::UDiv, mag, mk(div, w), w, nullptr);
+    Val d = binop(S, Instruction::URem, q, mk(10, w), w, nullptr);
+    Val b = binop(S, Instruction::Add, truncv(d, 8), mk('0', 8), 8, nullptr);
+    out.push_back(b);
+  }
 }
 // printf-style formatting; args are 64-bit slots
-static std::string fmt(State &S, const std::string &f, const std::vector<Val> &a, size_t ai) {
-  std::string out;
+static SBytes fmt(State &S, const std::string &f, const std::vector<Val> &a, size_t ai) {
+  SBytes out;
   for (size_t i = 0; i < f.size(); i++) {
-    if (f[i] != '%') { out.push_back(f[i]); continue; }
+    if (f[i] != '%') { out.push_back(mk((unsigned char)f[i], 8)); continue; }
     size_t j = i + 1; std::string spec = "%";
     while (j < f.size() && strchr("-+ #0123456789.lh", f[j])) spec.push_back(f[j++]);
     if (j >= f.size()) break;
     char c = f[j]; spec.push_back(c); char buf[600];
-    if (c == '%') out.push_back('%');
-    else if (c == 's') { if (ai >= a.size()) die("fmt: missing %s arg"); u64 p = concfork(S, a[ai++], "%s pointer"); std::string s = cstr(S, p); snprintf(buf, sizeof buf, spec.c_str(), s.size() < 500 ? s.c_str() : ""); if (s.size() < 500) out += buf; else out += s; }
+    if (c == '%') out.push_back(mk('%', 8));
+    else if (c == 's') {
+      if (ai >= a.size()) die("fmt: missing %s arg");
+      u64 p = concfork(S, a[ai++], "%s pointer");
+      if (spec == "%s") { for (u64 k = 0;; k++) { Val b = loadv(S, p + k, 1); if (opt_uninit && b.undef) throw Fault{"UNINIT-USE", "%s argument reads uninitialised byte"}; if (branch(S, icmp(CmpInst::ICMP_EQ, b, mk(0, 8)))) break; out.push_back(b); if (k > (1u << 20)) throw Fault{"STEP-LIMIT", "unterminated %s argument"}; } }
+      else { std::string s = cstr(S, p); snprintf(buf, sizeof buf, spec.c_str(), s.size() < 500 ? s.c_str() : ""); putstr(out, s.size() < 500 ? std::string(buf) : s); }
+    }
     else if (c == 'd' || c == 'i' || c == 'c' || c == 'u' || c == 'x' || c == 'X' || c == 'o') {
       if (ai >= a.size()) die("fmt: missing int arg");
-      u64 cv = concfork(S, a[ai++], "formatted integer");
+      Val av = applypins(S, a[ai++]);
       bool l = spec.find('l') != std::string::npos;
-      if (l) snprintf(buf, sizeof buf, spec.c_str(), (long)cv); else snprintf(buf, sizeof buf, spec.c_str(), (int)cv);
-      out += buf;
-    } else if (c == 'g' || c == 'f' || c == 'e') { if (ai >= a.size()) die("fmt: missing fp arg"); double d; u64 b = a[ai++].c; memcpy(&d, &b, 8); snprintf(buf, sizeof buf, spec.c_str(), d); out += buf; }
-    else if (c == 'p') { u64 cv = concfork(S, a[ai++], "%p"); snprintf(buf, sizeof buf, "%p", (void *)cv); out += buf; }
+      if (av.sym() && (spec == "%d" || spec == "%ld" || spec == "%i" || spec == "%u" || spec == "%lu")) { put_symbolic_decimal(S, out, av, l, c == 'u'); }
+      else if (av.sym() && spec == "%c") out.push_back(truncv(av, 8));
+      else {
+        u64 cv = concfork(S, av, "formatted integer");
+        if (l) snprintf(buf, sizeof buf, spec.c_str(), (long)cv); else snprintf(buf, sizeof buf, spec.c_str(), (int)cv);
+        if (c == 'c' && spec == "%c") out.push_back(mk(cv & 0xff, 8)); else putstr(out, buf);
+      }
+    } else if (c == 'g' || c == 'f' || c == 'e') { if (ai >= a.size()) die("fmt: missing fp arg"); double d; u64 b = a[ai++].c; memcpy(&d, &b, 8); snprintf(buf, sizeof buf, spec.c_str(), d); putstr(out, buf); }
+    else if (c == 'p') { u64 cv = concfork(S, a[ai++], "%p"); snprintf(buf, sizeof buf, "%p", (void *)cv); putstr(out, buf); }
     else die("fmt: unsupported conversion " + spec);
     i = j;
   }
@@ -175,10 +209,10 @@ bool extcall(State &S, DInst &D, const std::string &n, std::vector<Val> &a) {
   if (n == "atoi") { std::string s = cstr(S, concfork(S, a[0], "atoi")); ret(mk((u64)(i64)atoi(s.c_str()), 32)); return false; }
   // ---- stdio
   if (n == "fprintf" || n == "fputs" || n == "fputc" || n == "putc" || n == "printf" || n == "fflush" || n == "vfprintf" || n == "fwrite" || n == "puts" || n == "putchar" || n == "perror") { ret(mk(0, 32)); return false; }
-  if (n == "sprintf") { std::string s = fmt(S, cstr(S, concfork(S, a[1], "format")), a, 2); writestr(S, concfork(S, a[0], "sprintf dst"), s); ret(mk(s.size(), 32)); return false; }
-  if (n == "snprintf") { std::string s = fmt(S, cstr(S, concfork(S, a[2], "format")), a, 3); u64 lim = concfork(S, a[1], "snprintf n"); if (lim) writestr(S, concfork(S, a[0], "snprintf dst"), s.substr(0, lim - 1)); ret(mk(s.size(), 32)); return false; }
-  if (n == "vsprintf") { std::string f = cstr(S, concfork(S, a[1], "format")); std::vector<Val> args = va_args_of(S, concfork(S, a[2], "va_list"), f); std::string s = fmt(S, f, args, 0); writestr(S, concfork(S, a[0], "vsprintf dst"), s); ret(mk(s.size(), 32)); return false; }
-  if (n == "vsnprintf") { std::string f = cstr(S, concfork(S, a[2], "format")); std::vector<Val> args = va_args_of(S, concfork(S, a[3], "va_list"), f); std::string s = fmt(S, f, args, 0); u64 lim = concfork(S, a[1], "vsnprintf n"); if (lim) writestr(S, concfork(S, a[0], "vsnprintf dst"), s.substr(0, lim - 1)); ret(mk(s.size(), 32)); return false; }
+  if (n == "sprintf") { SBytes s = fmt(S, cstr(S, concfork(S, a[1], "format")), a, 2); writestr(S, concfork(S, a[0], "sprintf dst"), s); ret(mk(s.size(), 32)); return false; }
+  if (n == "snprintf") { SBytes s = fmt(S, cstr(S, concfork(S, a[2], "format")), a, 3); u64 lim = concfork(S, a[1], "snprintf n"); if (lim) writestr(S, concfork(S, a[0], "snprintf dst"), SBytes(s.begin(), s.begin() + std::min<size_t>(s.size(), lim - 1))); ret(mk(s.size(), 32)); return false; }
+  if (n == "vsprintf") { std::string f = cstr(S, concfork(S, a[1], "format")); std::vector<Val> args = va_args_of(S, concfork(S, a[2], "va_list"), f); SBytes s = fmt(S, f, args, 0); writestr(S, concfork(S, a[0], "vsprintf dst"), s); ret(mk(s.size(), 32)); return false; }
+  if (n == "vsnprintf") { std::string f = cstr(S, concfork(S, a[2], "format")); std::vector<Val> args = va_args_of(S, concfork(S, a[3], "va_list"), f); SBytes s = fmt(S, f, args, 0); u64 lim = concfork(S, a[1], "vsnprintf n"); if (lim) writestr(S, concfork(S, a[0], "vsnprintf dst"), SBytes(s.begin(), s.begin() + std::min<size_t>(s.size(), lim - 1))); ret(mk(s.size(), 32)); return false; }
   // ---- control
   if (n == "_setjmp" || n == "setjmp" || n == "__sigsetjmp") { u64 jb = concfork(S, a[0], "setjmp"); S.jbs[jb] = JB{S.stk.size(), S.stk.back().pc, D.dst}; ret(mk(0, 32)); return false; }
   if (n == "longjmp" || n == "_longjmp" || n == "siglongjmp") { do_longjmp(S, concfork(S, a[0], "longjmp"), a[1]); return true; }
@@ -223,7 +257,7 @@ bool extcall(State &S, DInst &D, const std::string &n, std::vector<Val> &a) {
   if (n == "sx_observe") { S.obs.push_back(Obs{cstr(S, a[0].c), a[1]}); return false; }
   if (n == "sx_observe_str") { Obs o; o.tag = cstr(S, a[0].c) + "=" + cstr(S, concfork(S, a[1], "observe_str")); o.v = mk(0, 64); S.obs.push_back(o); return false; }
   if (n == "sx_param") { std::string nm = cstr(S, a[0].c); auto it = params.find(nm); ret(mk(it == params.end() ? a[1].c : (u64)it->second, 64)); return false; }
-  if (n == "sx_ite") { Val c = icmp(CmpInst::ICMP_NE, a[0], mk(0, a[0].w)); if (!c.sym()) ret(c.c ? a[1] : a[2]); else { Val r = mks(z3::ite(ex(c) == Z.bv_val(1, 1), ex(a[1]), ex(a[2])), a[1].w); r.undef = a[0].undef || a[1].undef || a[2].undef; ret(r); } return false; }
+  if (n == "sx_ite") { Val c = icmp(CmpInst::ICMP_NE, a[0], mk(0, a[0].w)); if (!c.sym()) ret(c.c ? a[1] : a[2]); else { Val r = mks(z3::ite(ex(c) == Z.bv_val(1, 1), ex(a[1]), ex(a[2])), a[1].w); r.undef = umask(a[0].undef || a[1].undef || a[2].undef, a[1].w); ret(r); } return false; }
   if (n == "sx_fail_alloc_at") { S.failk = a[0]; S.failarmed = !(!a[0].sym() && sextw(a[0].c, a[0].w) < 0); S.alloccnt = 0; return false; }
   if (n == "sx_alloc_count") { ret(mk(S.alloccnt, 64)); return false; }
   if (n == "sx_live_heap_blocks") { ret(mk(S.live_heap, 64)); return false; }
